@@ -8,6 +8,7 @@ import MaestroVerif.Lemmas.ExpandNodes
 import MaestroVerif.Lemmas.ExpandGate
 import MaestroVerif.Lemmas.ExpandComplete
 import MaestroVerif.Lemmas.ExpandAll
+import MaestroVerif.Lemmas.ExpandDeps
 
 /-!
 # C08 — Parameter expansion creates exactly the right instances and edges
@@ -568,5 +569,24 @@ theorem C08_no_step_dropped (spec : Spec) (hc : NoClash spec)
     (C08_every_step_staged spec ord sf h hsrc st hst) (hsrc st hst)).2.2
 
 example : ∀ st, st ∈ demoSpec.steps → st.name ≠ SOURCE := by decide +kernel
+
+/-- **the dependency sets one step's staging leaves behind are exact** (`Lemmas/ExpandDeps.lean`):
+when `stageStep` returns for a step of the specification, for every row of the table the dependency
+set of the row's instance is exactly what a row *with the same instance name* is owed (`Owed`:
+`_source` for a step without dependencies, otherwise the same-combination instance of every
+ordinary dependency and every recorded instance of every funnel dependency, read from the tables as
+the step leaves them) - an instance shared by several rows is placed once per row, each placement
+empties the set and wires it again, so the last one stands; no other dependency set has changed;
+the tables have changed in the step's own entries only.  For every specification without a name
+clash, every iteration oracle, every staging state whose combination table is keyed by step names. -/
+theorem C08_step_deps_exact (spec : Spec) (hc : NoClash spec) {ord : List Str → List Str}
+    (ho : IsPermOracle ord) (s s' : SS) (st : Step) (hst : st ∈ spec.steps)
+    (hkeys : ∀ k, s.combos.any (·.1 == k) = true → k ∈ SOURCE :: spec.steps.map (·.name))
+    (hself : st.name ∉ hubOf st) (h : stageStep spec ord s st = .ok s') :
+    DepsOK spec s' st ∧
+    (∀ k, ¬ InstNameOf spec st (getAssoc s'.used st.name) k →
+      ∀ x, x ∈ getAssoc s'.g.deps k ↔ x ∈ getAssoc s.g.deps k) ∧
+    (∀ k, k ≠ st.name → getAssoc s'.used k = getAssoc s.used k ∧ getAssoc s'.combos k = getAssoc s.combos k) :=
+  stageStep_deps spec hc ho s s' st hst hkeys hself h
 
 end MaestroVerif.C08
